@@ -83,6 +83,10 @@ def introspect_remote_schema(
         )
     except httpx.InvalidURL as exc:
         raise IntrospectionError(f"Invalid remote schema url: {url}") from exc
+    except httpx.TransportError as exc:
+        raise IntrospectionError(
+            f"Failure of remote schema introspection: {exc}"
+        ) from exc
 
     if not response.is_success:
         raise IntrospectionError(
